@@ -117,6 +117,12 @@ func doOp(api API, op *Op) *Res {
 		// by the journal
 		data := append([]byte{}, op.Data...)
 		x := api.NFSPROC3_WRITE(nt.WRITE3args{File: fh3(op.H), Offset: nt.Offset3(op.Off), Count: nt.Count3(op.Count), Stable: nt.Stable_how(op.Stable), Data: data})
+		// the request buffer belongs to the caller again once the reply is
+		// there: reuse it (a server that kept a reference to it - the journal
+		// retains full-block buffers - now serves and installs these bytes)
+		for i := range data {
+			data[i] = ^data[i]
+		}
 		r.Stat = uint32(x.Status)
 		if x.Status == nt.NFS3_OK {
 			r.Count = uint32(x.Resok.Count)
